@@ -1,6 +1,7 @@
 import NurbsVerif.Model.Shape
 import NurbsVerif.Model.Knots2
 import NurbsVerif.Model.RefineA54
+import NurbsVerif.Model.InsertA51
 import NurbsVerif.Model.Transform
 import NurbsVerif.Driver.Parse
 /- shape parsing / printing and the knot-operation ops (C04 …) -/
@@ -103,6 +104,22 @@ def handleShape (toks : List String) : Option String :=
       let (S, rest) ← parseShape rest
       if !shapeOk S then return "ERR"
       insSeq false S rest
+  -- A5.1 as coded (literal transcription `knotInsertionA51`): helpers.knot_insertion(p, U, P, u, num=r, s=s, span=k),
+  -- point branch.  Guard: no negative index (p <= k, r + s <= p), no read past the net (k < len P) and a
+  -- non-empty span k (then no alpha denominator is zero); outside it the answer is ERR
+  | ["insa51", p, us, ps, u, r, s, k] => do
+      let p ← p.toNat?; let U ← parseList us; let P ← parsePts ps; let u ← parseRat u
+      let r ← r.toNat?; let s ← s.toNat?; let k ← k.toNat?
+      if p = 0 || U.length != P.length + p + 1 || !isSortedB U || r + s > p || k < p || k ≥ P.length
+          || !(decide (fn U k < fn U (k + 1))) then return "ERR"
+      return showPts (knotInsertionA51 p (fn U) P u r s k)
+  -- the same call against the index-by-index model `knotInsertion`
+  | ["inspt", p, us, ps, u, r, s, k] => do
+      let p ← p.toNat?; let U ← parseList us; let P ← parsePts ps; let u ← parseRat u
+      let r ← r.toNat?; let s ← s.toNat?; let k ← k.toNat?
+      if p = 0 || U.length != P.length + p + 1 || !isSortedB U || r + s > p || k < p || k ≥ P.length
+          || !(decide (fn U k < fn U (k + 1))) then return "ERR"
+      return showPts (knotInsertion p (fn U) P u r s k)
   | "xform" :: rest => do
       let (S, rest) ← parseShape rest
       if !shapeOk S then return "ERR"
